@@ -615,9 +615,15 @@ def sig_sideloaded_proto_core(sub, spec, clause, detail) -> bool:
 
 
 def sig_gene_function_split(sub, spec, clause, detail) -> bool:
-    """ function annotation without product whose description holds ': ' reloads with the prefix as product """
-    if not any(f[3] is None and ": " in f[2] for g in spec["genes"] for f in g.get("functions") or []):
+    """ function annotation without product whose description holds a colon reloads with the prefix as product; the
+        blank after the colon is optional for the parser, so 'x:y' is also rewritten as 'x: y' """
+    if not any(f[3] is None and ":" in f[2] for g in spec["genes"] for f in g.get("functions") or []):
         return False
+    if _route_clause(clause, "features"):
+        values = detail.get("values") or [None, None]
+        return (detail.get("type") == "CDS" and detail.get("key") == "gene_functions"
+                and all(isinstance(v, list) for v in values) and len(values[0]) == len(values[1])
+                and all(a == b or (a.replace(": ", ":") == b.replace(": ", ":")) for a, b in zip(*values)))
     if not (_route_clause(clause, "structure") and detail.get("section") == "cds_functions"):
         return False
     for item in detail["diff"]:
@@ -625,8 +631,8 @@ def sig_gene_function_split(sub, spec, clause, detail) -> bool:
             if not (item["first"] is None and isinstance(item["second"], str)):
                 return False
         elif item["at"].endswith("[3]"):
-            if not (isinstance(item["first"], str) and ": " in item["first"]
-                    and item["first"].split(": ", 1)[1] == item["second"]):
+            if not (isinstance(item["first"], str) and ":" in item["first"]
+                    and item["first"].split(":", 1)[1].strip() == item["second"]):
                 return False
         else:
             return False
